@@ -14,7 +14,7 @@ extra_batches = {"C01": "simbatch + apibatch", "C02": "simbatch + apibatch (+ Ap
                  "C14": "Pure records (plan)", "C16": "Pure records (config)", "C15": "simbatch + Pure records (delay)",
                  "C06": "simbatch + Pure records (runtime, monotonicity grid)"}
 mc_extra = {"C01": "MC_ClusterAPI", "C02": "MC_ClusterAPI", "C09": "MC_ClusterAPI", "C19": "MC_ClusterAPI", "C07": "MC_Buffer",
-            "C18": "MC_Buffer", "C10": "MC_Sim A, W (I_C10_det)", "C11": "MC_Sim S (A_C11, I_C13_*, I_End)",
+            "C18": "MC_Buffer", "C10": "MC_Sim A, W, G (I_C10_det)", "C11": "MC_Sim S (A_C11, I_C13_*, I_End)",
             "C14": "-", "C16": "-"}
 for i in range(1, 20):
     pid = "C%02d" % i
